@@ -514,10 +514,19 @@ func (r *runner) evalVariant(e *entry, t, v any, ov *optVec, multi bool, memo ma
 			return
 		}
 		if !sameBytesAnyOrder(mem, res.text) {
-			fail(o, verdict{core: "stream-differs:byte-multiset", exp: fmt.Sprintf("the bytes of %q in some member order", mem), obs: fmt.Sprintf("%q", res.text)})
+			how := "bytes"
+			if len(res.text) < len(mem) {
+				how = "shorter"
+			} else if len(res.text) > len(mem) {
+				how = "longer"
+			}
+			fail(o, verdict{core: "stream-differs:" + how, exp: fmt.Sprintf("the bytes of %q in some member order", mem), obs: fmt.Sprintf("%q", res.text)})
 			return
 		}
-		if vd := jd(res.text); vd.core != "" {
+		// the members came out in another order: judge the streamed text on
+		// its own (a defect the in-memory text shows too is the in-memory
+		// entry's finding, not a streaming one)
+		if vd := jd(res.text); vd.core != "" && vd.core != jd(mem).core {
 			vd.core = "stream-differs:content:" + vd.core
 			fail(o, vd)
 		}
@@ -545,7 +554,7 @@ func (r *runner) evalVariant(e *entry, t, v any, ov *optVec, multi bool, memo ma
 func (r *runner) stillFails(e *entry, t, v any, ov *optVec, core string, multi bool) bool {
 	tries := 1
 	if multi {
-		tries = 3
+		tries = 8 // the member order is not controlled and may decide whether the defect shows
 	}
 	for i := 0; i < tries; i++ {
 		for _, f := range r.evalVariant(e, t, v, ov, multi, nil, nil) {
@@ -567,9 +576,12 @@ func (r *runner) minimise(e *entry, t, v any, ov optVec, core string, multi bool
 			ov = o
 		}
 	}
-	try(func(o *optVec) { o.OneByte = false })
+	orig := ov
 	if e.stream {
-		try(func(o *optVec) { o.WriteLimit = 1024 })
+		// a flush defect shows at limits that depend on the text length, and
+		// the text changes with the options: minimise under "any limit of the
+		// set" (WriteLimit 0 makes evalVariant scan them), then pin one again
+		try(func(o *optVec) { o.WriteLimit, o.OneByte = 0, false })
 	}
 	try(func(o *optVec) { o.Tab = false })
 	try(func(o *optVec) { o.Indent = 0 })
@@ -581,6 +593,19 @@ func (r *runner) minimise(e *entry, t, v any, ov optVec, core string, multi bool
 		try(func(o *optVec) { o.Align = false })
 		try(func(o *optVec) { o.Width = 80 })
 		try(func(o *optVec) { o.MaxDepth = 3 })
+	}
+	if e.stream && ov.WriteLimit == 0 {
+		pinned := false
+		for i := len(r.plan.wls) - 1; i >= 0 && !pinned; i-- { // largest failing limit first: 1024 = "no limit needed"
+			o := ov
+			o.WriteLimit = r.plan.wls[i]
+			if r.stillFails(e, t, v, &o, core, multi) {
+				ov, pinned = o, true
+			}
+		}
+		if !pinned {
+			ov.WriteLimit, ov.OneByte = orig.WriteLimit, orig.OneByte
+		}
 	}
 	return ov
 }
